@@ -36,6 +36,10 @@ pub enum Op {
 #[derive(Serialize, Deserialize, Clone, Debug)]
 pub struct Case {
     pub ops: Vec<Op>,
+    /// run the history through the store actor (SyncHandle) instead of the Store: crash images after every
+    /// acknowledged request, flush through the handle, shutdown at the end
+    #[serde(default)]
+    pub via_actor: bool,
 }
 
 fn key(k: u8) -> Vec<u8> {
@@ -91,12 +95,12 @@ impl Prop for C06 {
             1 => Just(Op::ReadList),
             1 => Just(Op::Restart),
         ];
-        vec(op, 1..=max).prop_map(|ops| Case { ops }).boxed()
+        (vec(op, 1..=max), prop::bool::weighted(0.25)).prop_map(|(ops, via_actor)| Case { ops, via_actor }).boxed()
     }
 
     fn check(ctx: &mut Ctx, c: &Case) -> Outcome {
         let mut o = Outcome::default();
-        let r = run(ctx, c, &mut o);
+        let r = if c.via_actor { run_actor(ctx, c, &mut o) } else { run(ctx, c, &mut o) };
         verif::arm_age_at(None);
         verif::set_clock(None);
         if let Err(e) = r {
@@ -360,5 +364,162 @@ fn run(ctx: &mut Ctx, c: &Case, o: &mut Outcome) -> R<()> {
     }
     o.count("crash_images_opened", evaluated);
     o.count("commit_placements", total.min(cap) + 1);
+    Ok(())
+}
+
+
+/// The same histories through the store actor: the file is copied after every acknowledged request while the
+/// actor is alive; `flush_store` and the snapshot-taking requests are the documented commit points; after
+/// `shutdown` the reopened file must show the final state.
+fn run_actor(ctx: &mut Ctx, c: &Case, o: &mut Outcome) -> R<()> {
+    use iroh_docs::actor::OpenOpts;
+    o.class("via-actor");
+    let ids = docs();
+    // witness on an in-memory store, through the same interpreter as the Store-level variant
+    let mut witness = Store::memory();
+    let mut states: Vec<StoreDump> = vec![store_dump(&mut witness, &ids)?];
+    let mut commit_at: Vec<bool> = vec![true];
+    for (i, op) in c.ops.iter().enumerate() {
+        let (commits, _) = apply(&ctx.rt, &mut witness, i, op)?;
+        states.push(store_dump(&mut witness, &ids)?);
+        commit_at.push(commits);
+    }
+    drop(witness);
+    let path = ctx.fresh_path("c06a");
+    let image = ctx.fresh_path("c06a-image");
+    let mut h = crate::act::spawn(es(Store::persistent(&path))?);
+    let mut last_commit = 0usize;
+    let mut images = 0u64;
+    for (i, op) in c.ops.iter().enumerate() {
+        let now = T0 + 10 + i as u64;
+        verif::set_clock(Some(now));
+        let r: R<()> = ctx.rt.block_on(async {
+            match op {
+                Op::ImportAuthor(a) => {
+                    es(h.import_author(author(*a).clone()).await)?;
+                }
+                Op::ImportDoc(d) => {
+                    es(h.import_namespace(Capability::Write(namespace(*d).clone())).await)?;
+                }
+                Op::Local { d, a, k, c } => {
+                    // the Store-level interpreter signs with the pool author directly; the actor needs the author in the store
+                    let ns = ids[*d as usize];
+                    if h.open(ns, OpenOpts::default().sync()).await.is_ok() {
+                        let (hash, len) = content(*c);
+                        let had = es(h.export_author(author(*a).id()).await)?.is_some();
+                        if !had {
+                            es(h.import_author(author(*a).clone()).await)?;
+                        }
+                        let _ = h.insert_local(ns, author(*a).id(), key(*k).into(), hash, len).await;
+                        if !had {
+                            es(h.delete_author(author(*a).id()).await)?;
+                        }
+                        let _ = h.close(ns).await;
+                    }
+                }
+                Op::Delete { d, a, k } => {
+                    let ns = ids[*d as usize];
+                    if h.open(ns, OpenOpts::default().sync()).await.is_ok() {
+                        let had = es(h.export_author(author(*a).id()).await)?.is_some();
+                        if !had {
+                            es(h.import_author(author(*a).clone()).await)?;
+                        }
+                        let _ = h.delete_prefix(ns, author(*a).id(), key(*k).into()).await;
+                        if !had {
+                            es(h.delete_author(author(*a).id()).await)?;
+                        }
+                        let _ = h.close(ns).await;
+                    }
+                }
+                Op::Remote { d, a, k, t, c } => {
+                    let ns = ids[*d as usize];
+                    if h.open(ns, OpenOpts::default().sync()).await.is_ok() {
+                        let e = sign(namespace(*d), &ESpec { a: *a, k: key(*k), t: T0 + *t as u64, c: *c });
+                        let _ = h.insert_remote(ns, e, [6u8; 32], ContentStatus::Missing).await;
+                        let _ = h.close(ns).await;
+                    }
+                }
+                Op::Policy(d, p) => {
+                    let _ = h.set_download_policy(ids[*d as usize], DownloadPolicy::NothingExcept(vec![FilterKind::Prefix(key(*p).into())])).await;
+                }
+                Op::Peer(d, p) => {
+                    let _ = h.register_useful_peer(ids[*d as usize], [*p + 1; 32]).await;
+                }
+                Op::Remove(d) => {
+                    let _ = h.drop_replica(ids[*d as usize]).await;
+                }
+                Op::Flush => {
+                    es(h.flush_store().await)?;
+                }
+                Op::ReadMany(d) => {
+                    let ns = ids[*d as usize];
+                    if h.open(ns, OpenOpts::default()).await.is_ok() {
+                        let _ = crate::act::get_many(&h, ns, Query::all().build()).await;
+                        let _ = h.close(ns).await;
+                    }
+                }
+                Op::ReadHashes => {
+                    let _ = es(h.content_hashes().await)?.count();
+                }
+                Op::ReadList => {
+                    let _ = crate::act::list_replicas(&h).await?;
+                }
+                Op::Restart => {}
+            }
+            Ok(())
+        });
+        r?;
+        if matches!(op, Op::Restart) {
+            // shutdown hands the store back (flushed); drop it and start a new actor on the same file
+            let store = ctx.rt.block_on(async { es(h.shutdown().await) })?;
+            drop(store);
+            drop(h);
+            h = crate::act::spawn(es(Store::persistent(&path))?);
+        }
+        // ReadMany on a missing document does not reach get_many: it commits only if the document exists
+        let commits = match op {
+            Op::ReadMany(d) => states[i + 1].namespaces.iter().any(|(id, _)| *id == ids[*d as usize].to_bytes()),
+            _ => commit_at[i + 1],
+        };
+        if commits {
+            last_commit = i + 1;
+        }
+        es(std::fs::copy(&path, &image))?;
+        images += 1;
+        let mut img = match Store::persistent(&image) {
+            Ok(s) => s,
+            Err(e) => {
+                o.fail("C06/image-does-not-open", format!("actor variant, crash after request {i} {:?}: {e:?}", op));
+                break;
+            }
+        };
+        let got = store_dump(&mut img, &ids)?;
+        drop(img);
+        let _ = std::fs::remove_file(&image);
+        if !(last_commit..=i + 1).any(|j| states[j] == got) {
+            o.fail(
+                "C06/actor-image-is-not-a-state-the-store-passed-through",
+                format!("actor variant: crash after request {i} {:?}: the image shows {} which is none of S_{}..S_{} (S_{} = {})", op, describe_store(&got), last_commit, i + 1, i + 1, describe_store(&states[i + 1])),
+            );
+            break;
+        }
+        if last_commit < i + 1 {
+            o.nontrivial = true;
+            o.class("actor/image-with-uncommitted-requests");
+        }
+    }
+    // shutdown flushes: the file must show the final state
+    let store = ctx.rt.block_on(async { es(h.shutdown().await) })?;
+    drop(store);
+    drop(h);
+    if !o.failed() {
+        let mut st = es(Store::persistent(&path))?;
+        let got = store_dump(&mut st, &ids)?;
+        if got != states[c.ops.len()] {
+            o.fail("C06/actor-shutdown-loses-acknowledged-writes", format!("after shutdown the file shows {} expected {}", describe_store(&got), describe_store(&states[c.ops.len()])));
+        }
+    }
+    let _ = std::fs::remove_file(&path);
+    o.count("crash_images_opened", images);
     Ok(())
 }
